@@ -201,7 +201,7 @@ func (x *Exec) callHavoc(fr *frame, c *ssa.CallCommon, hs *havocSet) {
 	}
 	if callee == nil {
 		if c.IsInvoke() {
-			if ct := x.E.Contracts[invokeKey(c)]; ct != nil && ct.Modifies != nil && len(ct.Modifies.List) == 0 {
+			if ct := x.E.Contracts[x.E.invokeKey(c)]; ct != nil && ct.Modifies != nil && len(ct.Modifies.List) == 0 {
 				return
 			}
 		}
